@@ -32,6 +32,10 @@ const (
 	// an operand is NULL (comparison.CompareValue returns 0 for NULL operands), so the
 	// client receives rows the engine does not produce in process.
 	kfValueRowNullCmp = "C35-valuerow-null-cmp"
+	// FOUND_ROWS() after a SELECT that failed while evaluating its select list is 1 for a
+	// client and 0 in process: the handler defers the top-level projection, so the row
+	// iterator (which feeds FOUND_ROWS) has already counted the row when the projection fails.
+	kfFoundRowsAfterFail = "C35-found-rows-after-failed-select"
 )
 
 // ---------------------------------------------------------------------------------------
@@ -348,6 +352,10 @@ func compare(st *stats.Collector, s *stmt, exp *fx.Result, got *wireResult) (out
 			out.class = "known-" + kfTemporalDecimals
 			return
 		}
+		if s.AfterFailed && s.TextOnly && isFoundRowsAfterFailFinding(have, want) && kf.Suppress(st, kfFoundRowsAfterFail) {
+			out.class = "known-" + kfFoundRowsAfterFail
+			return
+		}
 		if len(s.NullCmpCols) > 0 && isValueRowNullCmpFinding(s.NullCmpCols, have, want) && kf.Suppress(st, kfValueRowNullCmp) {
 			out.class = "known-" + kfValueRowNullCmp
 			return
@@ -406,6 +414,14 @@ func isTemporalDecimalsFinding(sch gsql.Schema, have, want [][]string, ordered b
 		}
 	}
 	return seen
+}
+
+// isFoundRowsAfterFailFinding is the signature of C35-found-rows-after-failed-select for the
+// statement SELECT ROW_COUNT(), FOUND_ROWS() issued right after a failed statement: one row
+// on both sides, ROW_COUNT() agrees, FOUND_ROWS() is 1 for the client and 0 in process.
+func isFoundRowsAfterFailFinding(have, want [][]string) bool {
+	return len(have) == 1 && len(want) == 1 && len(have[0]) == 2 && len(want[0]) == 2 &&
+		valEq(have[0][0], want[0][0]) && have[0][1] == "n:1" && want[0][1] == "n:0"
 }
 
 // isValueRowNullCmpFinding is the signature of C35-valuerow-null-cmp: the client received
@@ -522,10 +538,17 @@ func TestC35(t *testing.T) {
 		}
 		nStmts := rapid.IntRange(3, 12).Draw(rt, "nStmts")
 		var history []string
+		prevFailed := false
 		for i := 0; i < nStmts; i++ {
 			s := g.drawStmt(rt)
 			if s.TextOnly {
 				s.Binary = false
+				if prevFailed {
+					// ROW_COUNT()/FOUND_ROWS() right after a failed statement: region of
+					// C35-found-rows-after-failed-select, excluded here (TestC35Known covers it)
+					st.Excluded(kfFoundRowsAfterFail)
+					s = &stmt{Kind: "session-fn", SQL: "SELECT LAST_INSERT_ID()", Twin: "SELECT LAST_INSERT_ID()", Ordered: true, Size: 1}
+				}
 			}
 			history = append(history, s.String())
 			o := checkStmt(st, tw, wc, s)
@@ -541,6 +564,7 @@ func TestC35(t *testing.T) {
 			if s.Binary {
 				proto = "binary"
 			}
+			prevFailed = strings.HasPrefix(o.class, "error") || o.class == "multi-rows-then-error"
 			st.Class("stmt:" + s.Kind)
 			st.Class("proto:" + proto)
 			st.Class("outcome:" + o.class)
@@ -616,6 +640,9 @@ func TestC35Known(t *testing.T) {
 			{Kind: "frac-temporal", SQL: fmt.Sprintf("SELECT id, c_ts, c_time, c_dt6, c_dt3 FROM big ORDER BY id LIMIT %d", n), Ordered: true, Binary: rapid.Bool().Draw(rt, "binary1")},
 			{Kind: "frac-temporal", SQL: fmt.Sprintf("SELECT c_time, c_ts, id FROM big WHERE id < %d", n), Binary: rapid.Bool().Draw(rt, "binary2")},
 			{Kind: "frac-temporal", SQL: "SELECT TIME('12:34:56.789'), CAST('2020-01-02 03:04:05.678' AS DATETIME(3)), CAST('2020-01-02 03:04:05.678901' AS DATETIME(6))", Ordered: true, Binary: rapid.Bool().Draw(rt, "binary3")},
+			// per-session counters after a SELECT that failed while evaluating its select list
+			{Kind: "fail", SQL: "SELECT JSON_EXTRACT('{}', '$[')", Binary: rapid.Bool().Draw(rt, "binary7")},
+			{Kind: "session-fn", SQL: "SELECT ROW_COUNT(), FOUND_ROWS()", Ordered: true, TextOnly: true, AfterFailed: true},
 			// value-row scans filtered with >= / <= on nullable columns (columns of v.t<n>: id a u f s x dt y t8)
 			{Kind: "valuerow-null-cmp", SQL: fmt.Sprintf("SELECT * FROM v.t%d WHERE y >= 2000", sizes[uni(rt, "vn1", len(sizes)-2)]), NullCmpCols: []int{7}, Binary: rapid.Bool().Draw(rt, "binary4")},
 			{Kind: "valuerow-null-cmp", SQL: fmt.Sprintf("SELECT * FROM v.t%d WHERE a <= u", sizes[uni(rt, "vn2", len(sizes)-2)]), NullCmpCols: []int{1, 2}, Binary: rapid.Bool().Draw(rt, "binary5")},
@@ -627,7 +654,7 @@ func TestC35Known(t *testing.T) {
 				return
 			}
 			if o.msg != "" {
-				rt.Fatalf("C35 violated in the region of the findings %s / %s: %s\n  statement: %s", kfTemporalDecimals, kfValueRowNullCmp, o.msg, s)
+				rt.Fatalf("C35 violated in the region of the findings %s / %s / %s: %s\n  statement: %s", kfTemporalDecimals, kfValueRowNullCmp, kfFoundRowsAfterFail, o.msg, s)
 			}
 			proto := "text"
 			if s.Binary {
